@@ -25,6 +25,37 @@ def shape_of(v):
     return len(v) if isinstance(v, list) else None
 
 
+# ---- the calculator as the first neutron calculation of the process: materials holding atoms with energy-dependent
+# tables, calculators built and evaluated before any direct calculation has run, then compared with the direct route
+first_ = []
+for names_, ws_, rho_, lam_ in [(("Gd(NO3)3", "H2O"), [1.0, 20.0], 1.2, [0.5, 0.9, 1.8]),
+                                (("Sm[149]2O3", "Er2O3"), [1.0, 2.0], 7.0, [0.3, 1.0]),
+                                (("Lu[176]", "Yb", "Eu[151]Cl3"), [2.0, 1.0, 0.5], 8.5, [0.7])]:
+    mats_ = [formula(n_) for n_ in names_]
+    first_.append((names_, ws_, rho_, lam_, mats_,
+                   attempt(lambda: nsf.neutron_composite_sld(mats_, wavelength=lam_)(np.array(ws_), density=rho_))))
+for names_, ws_, rho_, lam_, mats_, res_c in first_:
+    mix_ = ws_[0] * mats_[0]
+    for w_, m_ in zip(ws_[1:], mats_[1:]):
+        mix_ = mix_ + w_ * m_
+    res_d = attempt(lambda: nsf.neutron_sld(mix_, density=rho_, wavelength=lam_))
+    txt_ = "neutron_composite_sld(%r, wavelength=%r)(%r, density=%r) as the first neutron calculation of the process" % (
+        list(names_), lam_, ws_, rho_)
+    stats["calculator_first"] = stats.get("calculator_first", 0) + 1
+    if isinstance(res_c, BaseException) or isinstance(res_d, BaseException):
+        fail("C17:raises", "%s: composite %r, direct %r" % (txt_, res_c, res_d), call=txt_)
+        continue
+    fc_, fd_ = flatten_result(tuple(res_c), True, len(lam_)), flatten_result(tuple(res_d), True, len(lam_))
+    if fc_ is None or fd_ is None:
+        fail("C17:shape", "%s: direct %r composite %r" % (txt_, res_d, res_c), call=txt_)
+        continue
+    for j_ in range(3):
+        for q_ in range(len(lam_)):
+            a_, b_ = fc_[j_][q_], fd_[j_][q_]
+            if not abs(a_ - b_) <= 1e-9 * max(abs(a_), abs(b_)):
+                fail("C17:composite-vs-direct:" + NAMES[j_], "%s: composite %s = %r at wavelength %r, direct neutron_sld of the sum formula "
+                     "gives %r" % (txt_, NAMES[j_], a_, lam_[q_], b_), call=txt_, output=NAMES[j_])
+
 for i in range(ncases):
     k = rng.randint(1, 6)
     seqs = []
